@@ -56,20 +56,50 @@ func runFind(c *Case) []string {
 			}
 		}
 	}
+	// while a lazy search is under way another search with another pattern runs to completion: searches are
+	// independent of each other
+	other := func() {}
+	otherPat := []int{3, 1, 3}
+	if len(origPat) > 0 {
+		otherPat = append([]int{origPat[len(origPat)-1]}, origPat...)
+	}
 	pull := func(it func() int, k int) {
 		scramble()
 		for i := 0; i < k; i++ {
 			res = append(res, it())
+			if i == 0 {
+				other()
+			}
 		}
 	}
 	take := func(it func() int, k int) { // emulate a push iterator stopped after k items by a pull iterator
 		scramble()
+		first := true
 		for k < 0 || len(res) < k {
 			x := it()
 			if x == -1 {
 				break
 			}
 			res = append(res, x)
+			if first {
+				first = false
+				other()
+			}
+		}
+	}
+	if finiteView := we >= 0 || len(rep) == 0; finiteView {
+		switch c.Ver {
+		case "v1":
+			other = func() { v1.FindAll(v.s1, otherPat); v1.FindLast(v.s1, otherPat) }
+		case "v2":
+			other = func() { v2.FindAll(v.s2, otherPat); v2.FindLast(v.s2, otherPat) }
+		default:
+			other = func() {
+				v3.FindFirst(v.s3, otherPat)
+				if f := v.fin3(); f != nil {
+					v3.FindLast(f, otherPat)
+				}
+			}
 		}
 	}
 	switch c.Ver {
@@ -138,6 +168,9 @@ func runFind(c *Case) []string {
 				return
 			}
 			for x := range seq {
+				if len(res) == 0 {
+					other()
+				}
 				res = append(res, x)
 				if k > 0 && len(res) >= k {
 					break
@@ -574,7 +607,45 @@ func genPlanted(n int, r *Rng, emit func(Case)) {
 	}
 }
 
+// genOverlapFind: the requested matches overlap each other (a run of one digit longer than the pattern) and nothing
+// matches afterwards: a lazy search must keep its partial-match state between the matches it reports.
+func genOverlapFind(n int, r *Rng, emit func(Case)) {
+	for i := 0; i < n; i++ {
+		ver := allVers[i%3]
+		m := r.Range(2, 3)
+		d := 7 + r.Intn(3)
+		pat := make([]int, m)
+		for k := range pat {
+			pat[k] = d
+		}
+		at := r.Pick([]int{0, 2, 50, 97, 98, 99, 100, 199, 650})
+		run := m + r.Range(1, 2)
+		raw := make([]int, at+run+r.Intn(20))
+		for k := range raw {
+			raw[k] = 1 + r.Intn(5)
+		}
+		for k := 0; k < run; k++ {
+			raw[at+k] = d
+		}
+		if raw[0] == 0 {
+			raw[0] = 1
+		}
+		var t toks
+		t.s("G")
+		t.ints(raw)
+		t.ints([]int{1 + r.Intn(5), 1 + r.Intn(5)})
+		t.i(1)
+		t.i(-1)
+		t.i(-1)
+		t.ints(pat)
+		t.i(r.Pick([]int{5, 5, 7, 9, 1}))
+		t.i(2)
+		emit(Case{Ver: ver, Op: "Find", Args: t})
+	}
+}
+
 func genC15Rest(n int, r *Rng, emit func(Case)) {
+	genOverlapFind(n/5+6, r, emit)
 	// v3: asking for n <= 0 matches consults nothing, on every kind of sequence (endless, a bounded view of an
 	// endless Number, a finite Number, a window with a start)
 	for i := 0; i < n/3+12; i++ {
@@ -598,7 +669,11 @@ func genC15Rest(n int, r *Rng, emit func(Case)) {
 		t.i(r.Pick([]int{-1, -1, 0, 1, 100, 200}))
 		t.i(r.Pick([]int{-1, 1, 10, 150, 700}))
 		t.ints(pat)
-		t.i(1)
+		fn := 1
+		if len(t) > 0 && r.Intn(3) == 0 {
+			fn = 4 // FindLastN: only on finite sequence types (the runner answers NOTFINITE otherwise)
+		}
+		t.i(fn)
 		t.i(r.Pick([]int{0, -1, MinInt}))
 		emit(Case{Ver: "v3", Op: "Find", Args: t})
 	}
